@@ -6,6 +6,7 @@ import (
 	"encoding/json"
 	"fmt"
 	"os"
+	"runtime"
 	"runtime/debug"
 	"sort"
 	"strings"
@@ -44,6 +45,21 @@ func (h *simHook) Unlocked(m unsafe.Pointer) {
 	}
 	h.s.Unlocked(uintptr(m), "")
 }
+
+//go:norace
+func (h *simHook) Wait(what string) {
+	if !h.s.Active() {
+		runtime.Gosched()
+		return
+	}
+	h.s.WaitPoint(what)
+}
+
+//go:norace
+func (h *simHook) Unsupported(what string) { h.s.NoteUnsupported(what) }
+
+//go:norace
+func (h *simHook) Go(fn func()) { h.s.Spawn(fn) }
 
 //go:norace
 func (h *simHook) TryLock(m unsafe.Pointer, name string, shared bool, try func() bool) bool {
@@ -268,6 +284,10 @@ func schedVerdicts(res *core.Result, prop string, s *sched.Sched, races []raceRe
 			fmt.Sprintf("accesses to %s not ordered by any lock of the library (vector clocks over the library's own lock events): task %d %s at %s, then task %d %s at %s",
 				v.Field, v.PrevTask, rw(v.PrevW), v.PrevSite, v.Task, rw(v.Write), v.Site),
 			map[string]interface{}{"schedule_tail": s.Trace(40)})
+	}
+	if s.Unsupported != "" {
+		res.Fatal = "the code under test uses something the simulator cannot model: " + s.Unsupported
+		return
 	}
 	if s.Deadlock != "" {
 		res.Violate(prop, "deadlock", "no task can run: "+s.Deadlock, map[string]interface{}{"schedule_tail": s.Trace(60)})
